@@ -167,9 +167,9 @@ def run(chk):
     allow_used = {}
     open_sites = []
 
-    def allowed(fn, what, own=None):
+    def allowed(fn, what, own=None, chain=()):
         for i, r in enumerate(allow):
-            if r["fn"] in (fn, own) and r["site"] == what:
+            if (r["fn"] in (fn, own) or r["fn"] in chain) and r["site"] == what:
                 allow_used[i] = allow_used.get(i, 0) + 1
                 if allow_used[i] <= r.get("max", 1):
                     return r
@@ -218,6 +218,13 @@ def run(chk):
             if d and d[0] == "call" and names.call_is(d[4], *INDEX_FINDERS):
                 src = d[4]
         if src is None:
+            # the receiver is a parameter of the (private) enclosing function and every call site passes an index-search result
+            if rp and rp[1] == ():
+                for l in [rp[0]] + list(du.trace_copy(rp[0])):
+                    if 1 <= l <= eb.arg_count:
+                        init_eb, _d = caller_init(eb)
+                        if init_eb and ("i", l, str(("v", "Some")), "0") in init_eb:
+                            return {("i", 2): init_eb[("i", l, str(("v", "Some")), "0")]}, "argument is the payload of parameter %d of %s, an index-search result at every call site" % (l, api_name(eb))
             return None, None
         return {("i", 2): Iv(0, intervals.LEN_MAX - 1)}, "argument is the index found by %s (< length <= isize::MAX)" % short(core.callee_of(src))
 
@@ -295,6 +302,208 @@ def run(chk):
             break
         return b
 
+    def eval_site(b, iv, du, fn, init_desc, generic_table, bb, t, kind, own=None, chain=()):
+        """decide one partial-operation site of body `b` (a function body or an inlined view) under the interval state `iv`;
+        -> (rule, what, ok, witness) or None when the block is unreachable"""
+        nonlocal table_ok
+        own_name = own or api_name(b)
+        st = iv.at(bb, "t")
+        if st is None:
+            return None  # unreachable block
+        ok = False
+        wit = ""
+        what = kind if kind.startswith("assert") else names.strip_generics(t.get("callee") or "?").replace("core::", "").replace("alloc::", "")
+        rule = "P2 allocation sites" if kind == "alloc" else "P1 panic sites"
+        if kind.startswith("assert:BoundsCheck"):
+            i_iv = iv.iv_operand(st, t["msg"]["index"])
+            l_iv = iv.iv_operand(st, t["msg"]["len"])
+            ok = i_iv.hi < l_iv.lo
+            wit = "index %s < len %s" % (i_iv, l_iv)
+            if not ok and iv.rel_holds(st, "lt", iv.sym(t["msg"]["index"]), iv.sym(t["msg"]["len"])):
+                ok = True
+                wit += " (relational: index < len by dominating comparison/subtraction)"
+        elif kind.startswith("assert:Overflow"):
+            a, b2 = t["msg"]["a"], t["msg"]["b"]
+            ia, ib = iv.iv_operand(st, a), iv.iv_operand(st, b2)
+            op = t["msg"]["op"]
+            ty = type_of_operand(b, a)
+            r = intervals.ty_range(ty) or Iv(0, 2**64 - 1)
+            if op == "Add":
+                res = Iv(ia.lo + ib.lo, ia.hi + ib.hi)
+                ok = res.hi <= r.hi
+            elif op == "Sub":
+                res = Iv(ia.lo - ib.hi, ia.hi - ib.lo)
+                ok = res.lo >= r.lo or iv.rel_holds(st, "le", iv.sym(b2), iv.sym(a))
+            elif op == "Mul":
+                res = Iv(ia.lo * ib.lo, ia.hi * ib.hi if INF not in (ia.hi, ib.hi) else INF)
+                ok = res.hi <= r.hi
+            elif op in ("Shl", "Shr"):
+                bits = {255: 8, 65535: 16, 2**32 - 1: 32, 2**64 - 1: 64}.get(r.hi, 64)
+                res = ib
+                ok = ib.hi < bits and ib.lo >= 0
+            else:
+                res = None
+            wit = "%s(%s, %s) within %s: %s" % (op, ia, ib, ty, ok)
+        elif kind.startswith("assert:DivisionByZero") or kind.startswith("assert:RemainderByZero"):
+            # the assert condition is `divisor == 0` (expected false)
+            pl = flow.op_place(t["cond"])
+            cd = iv.cmp_defs.get(pl[0]) if pl and pl[1] == () else None
+            ia = Iv(-INF, INF)
+            if cd and cd[0] == "Eq":
+                ia = iv.iv_operand(st, cd[1])
+                if flow.const_bits(cd[1]) == 0:
+                    ia = iv.iv_operand(st, cd[2])
+            ok = ia.lo > 0 or ia.hi < 0
+            wit = "divisor %s" % (ia,)
+        elif kind == "split_at":
+            s = iv.len_operand(st, t["args"][0])
+            k = iv.iv_operand(st, t["args"][1])
+            ok = k.hi <= s.lo
+            wit = "split_at(%s) on a slice of length %s" % (k, s)
+            if not ok:
+                rt = iv.root(t["args"][0])
+                if rt and iv.rel_holds(st, "le", iv.sym(t["args"][1]), ("l",) + rt):
+                    ok = True
+                    wit += " (relational: the cut is <= the length, e.g. a min with it)"
+        elif kind == "index":
+            s = iv.len_operand(st, t["args"][0])
+            r = iv.range_of(st, t["args"][1]) if len(t["args"]) > 1 else None
+            recv_ty = type_of_operand(b, t["args"][0])
+            if r is not None:
+                rk, a, e = r
+                if rk == "full":
+                    ok = True
+                elif rk == "range":
+                    ok = a.hi <= e.lo and e.hi <= s.lo
+                    if not ok and a.hi <= e.lo:
+                        # end <= length of the receiver by a dominating comparison (`if end <= data.len() { &data[a..end] }`)
+                        rt = iv.root(t["args"][0])
+                        pl = flow.op_place(t["args"][1])
+                        d = du.single_def(pl[0]) if pl and pl[1] == () else None
+                        if rt and d and d[0] == "assign" and d[4]["k"] == "agg" and d[4]["ops"]:
+                            ok = iv.rel_holds(st, "le", iv.sym(d[4]["ops"][-1]), ("l",) + rt)
+                            if ok:
+                                wit_rel = True
+                elif rk == "to":
+                    ok = e.hi <= s.lo
+                    if not ok:
+                        # end symbol <= length symbol of the receiver
+                        rt = iv.root(t["args"][0])
+                        pl = flow.op_place(t["args"][1])
+                        d = du.single_def(pl[0]) if pl and pl[1] == () else None
+                        if rt and d and d[0] == "assign" and d[4]["k"] == "agg" and d[4]["ops"]:
+                            ok = iv.rel_holds(st, "le", iv.sym(d[4]["ops"][-1]), ("l",) + rt)
+                elif rk == "from":
+                    ok = a.hi <= s.lo
+                wit = "range %s %s..%s on length %s" % (rk, a, e, s)
+                if ok and "str" in recv_ty and rk != "full":
+                    wit += " (str: index at a char boundary is part of the allow row / C10)"
+            else:
+                ity = type_of_operand(b, t["args"][1]) if len(t["args"]) > 1 else ""
+                if ity.strip() == "usize":
+                    i_iv = iv.iv_operand(st, t["args"][1])
+                    ok = i_iv.hi < s.lo
+                    wit = "index %s on length %s" % (i_iv, s)
+                else:
+                    wit = "indexing %s by %s is not understood" % (recv_ty, ity)
+        elif kind == "copy":
+            d, s = iv.len_operand(st, t["args"][0]), iv.len_operand(st, t["args"][1])
+            ok = d.exact() is not None and d.exact() == s.exact()
+            wit = "copy_from_slice dst %s src %s" % (d, s)
+        elif kind == "unwrap":
+            # infallible conversions: try_into of an exact-length slice into [T; N]
+            pl = flow.op_place(t["args"][0])
+            d = du.single_def(pl[0]) if pl and pl[1] == () else None
+            if d and d[0] == "call" and names.call_is(d[4], "TryInto::try_into", "TryFrom::try_from"):
+                n = None
+                m = re.search(r"Result<\[[^;\]]*; (\d+)\]", b.local_ty(pl[0]))
+                if m:
+                    n = int(m.group(1))
+                st2 = iv.at(d[1], "t")
+                s = iv.len_operand(st2, d[4]["args"][0]) if st2 is not None else Iv(0, INF)
+                ok = n is not None and s.exact() == n
+                wit = "try_into::<[_; %s]> of a slice of length %s" % (n, s)
+            else:
+                wit = "unwrap/expect of %s" % (short(core.callee_of(d[4])) if d and d[0] == "call" else "a non-call value")
+        elif kind == "alloc":
+            arg = t["args"][-1] if names.call_is(t, "alloc::vec::from_elem") else (t["args"][-1] if t["args"] else None)
+            if names.call_is(t, "Vec::resize", "Vec::resize_with"):
+                arg = t["args"][1]
+            n = iv.iv_operand(st, arg) if arg else Iv(0, INF)
+            held = is_len_derived(b, du, arg) if arg else False
+            ok = n.hi <= ALLOC_CAP or held
+            wit = "allocation size %s%s (cap %d)" % (n, " = length of held data" if held else "", ALLOC_CAP)
+            if not ok:
+                og = flow.Origins(p)
+                at = flow.atoms_summary(og.of_operand(b, arg)) if arg else []
+                wit += "; size derives from %s — a short input declaring a huge length makes the decoder reserve that much" % at
+        elif kind == "vecop" and names.call_is(t, "slice::chunks", "slice::chunks_exact", "slice::windows", "Iterator::step_by") and len(t["args"]) == 2:
+            # these panic only for a size of zero
+            n_ = iv.iv_operand(st, t["args"][1])
+            ok = n_.lo >= 1
+            wit = "chunk / window / step size %s (must be non-zero)" % (n_,)
+        elif kind in ("panic", "garray", "vecop"):
+            wit = "unconditional partial operation"
+        if not ok and generic_table and (kind.startswith("assert") or kind == "index"):
+            # lookups in the generated table: discharged by C10(b) (index ranges, widths <= 32, ASCII text, sorted siblings)
+            if table_ok is None:
+                from . import c10
+                table_ok = c10.table_facts_hold(p)
+            if table_ok[0]:
+                r = allowed(fn, what, own_name, chain)
+                if r is not None:
+                    ok = True
+                    wit = "discharged by C10(b) table facts + allow row: " + r["reason"]
+        if not ok:
+            r = allowed(fn, what, own_name, chain)
+            if r is not None:
+                ok = True
+                wit = "allow row: %s (%s)" % (r["reason"], wit)
+        if ok and init_desc and not wit.startswith("allow row"):
+            wit += " [caller precondition: %s]" % init_desc
+        return rule, what, ok, wit
+
+    view_cache = {}
+
+    def via_callers(hb, hbb, kind, generic_table):
+        """the site (block hbb of private helper hb) evaluated in the inlined views of all non-private scope bodies that
+        contain a copy of it; -> witness text when every reachable copy is discharged (and no plain call to the helper is
+        left anywhere), else None"""
+        n_copies, wits = 0, []
+        for path_ in sorted(scope):
+            eb = scope[path_]
+            if eb.path == eb.root and inline.default_policy(p, eb):
+                continue
+            if path_ not in view_cache:
+                v_ = inline.inlined(p, eb)
+                view_cache[path_] = (v_, intervals.Intervals(p, v_) if v_ is not None and getattr(v_, "inlined_callees", None) else None)
+            v_, iv_ = view_cache[path_]
+            if v_ is None:
+                continue
+            if any(x is hb or x.path == hb.path for bb_, t_ in (v_ if iv_ is not None else eb).calls() for x in p.local_callee_bodies(t_)):
+                return None   # still a call somewhere (recursion / depth bound): no per-call-site view of it
+            if iv_ is None:
+                continue
+            efn = api_name(attribute_to(eb))
+            for bb2, blk2 in enumerate(v_.blocks):
+                if blk2.get("from") != hb.path or blk2.get("from_bb") != hbb or blk2.get("dead") or blk2["cleanup"]:
+                    continue
+                t2 = blk2["term"]
+                if not t2:
+                    continue
+                # the functions this copy was inlined through, innermost first: an allow row of any of them covers it
+                ch_ = tuple(api_name(p.bodies[x]) for x in reversed(blk2.get("chain") or []) if x in p.bodies and x != hb.path)
+                r2 = eval_site(v_, iv_, iv_.du, ch_[0] if ch_ else efn, None, generic_table, bb2, t2, kind, own=api_name(hb), chain=ch_)
+                if r2 is None:
+                    continue
+                n_copies += 1
+                if not r2[2]:
+                    return None
+                wits.append((ch_[0] if ch_ else efn, r2[3], where(v_, bb2)))
+        if not n_copies:
+            return None
+        return wits
+
     for path in sorted(scope):
         b = scope[path]
         if b.def_kind in CONST_KINDS or any(k in b.j.get("def_kind", "") for k in CONST_KINDS):
@@ -323,155 +532,19 @@ def run(chk):
         generic_table = "public-suffix" in b.file
         for bb, t, kind in sites:
             n_sites += 1
-            st = iv.at(bb, "t")
-            if st is None:
-                continue  # unreachable block
-            ok = False
-            wit = ""
-            what = kind if kind.startswith("assert") else names.strip_generics(t.get("callee") or "?").replace("core::", "").replace("alloc::", "")
-            rule = "P2 allocation sites" if kind == "alloc" else "P1 panic sites"
-            if kind.startswith("assert:BoundsCheck"):
-                i_iv = iv.iv_operand(st, t["msg"]["index"])
-                l_iv = iv.iv_operand(st, t["msg"]["len"])
-                ok = i_iv.hi < l_iv.lo
-                wit = "index %s < len %s" % (i_iv, l_iv)
-                if not ok and iv.rel_holds(st, "lt", iv.sym(t["msg"]["index"]), iv.sym(t["msg"]["len"])):
-                    ok = True
-                    wit += " (relational: index < len by dominating comparison/subtraction)"
-            elif kind.startswith("assert:Overflow"):
-                a, b2 = t["msg"]["a"], t["msg"]["b"]
-                ia, ib = iv.iv_operand(st, a), iv.iv_operand(st, b2)
-                op = t["msg"]["op"]
-                ty = type_of_operand(b, a)
-                r = intervals.ty_range(ty) or Iv(0, 2**64 - 1)
-                if op == "Add":
-                    res = Iv(ia.lo + ib.lo, ia.hi + ib.hi)
-                    ok = res.hi <= r.hi
-                elif op == "Sub":
-                    res = Iv(ia.lo - ib.hi, ia.hi - ib.lo)
-                    ok = res.lo >= r.lo or iv.rel_holds(st, "le", iv.sym(b2), iv.sym(a))
-                elif op == "Mul":
-                    res = Iv(ia.lo * ib.lo, ia.hi * ib.hi if INF not in (ia.hi, ib.hi) else INF)
-                    ok = res.hi <= r.hi
-                elif op in ("Shl", "Shr"):
-                    bits = {255: 8, 65535: 16, 2**32 - 1: 32, 2**64 - 1: 64}.get(r.hi, 64)
-                    res = ib
-                    ok = ib.hi < bits and ib.lo >= 0
-                else:
-                    res = None
-                wit = "%s(%s, %s) within %s: %s" % (op, ia, ib, ty, ok)
-            elif kind.startswith("assert:DivisionByZero") or kind.startswith("assert:RemainderByZero"):
-                # the assert condition is `divisor == 0` (expected false)
-                pl = flow.op_place(t["cond"])
-                cd = iv.cmp_defs.get(pl[0]) if pl and pl[1] == () else None
-                ia = Iv(-INF, INF)
-                if cd and cd[0] == "Eq":
-                    ia = iv.iv_operand(st, cd[1])
-                    if flow.const_bits(cd[1]) == 0:
-                        ia = iv.iv_operand(st, cd[2])
-                ok = ia.lo > 0 or ia.hi < 0
-                wit = "divisor %s" % (ia,)
-            elif kind == "split_at":
-                s = iv.len_operand(st, t["args"][0])
-                k = iv.iv_operand(st, t["args"][1])
-                ok = k.hi <= s.lo
-                wit = "split_at(%s) on a slice of length %s" % (k, s)
-            elif kind == "index":
-                s = iv.len_operand(st, t["args"][0])
-                r = iv.range_of(st, t["args"][1]) if len(t["args"]) > 1 else None
-                recv_ty = type_of_operand(b, t["args"][0])
-                if r is not None:
-                    rk, a, e = r
-                    if rk == "full":
-                        ok = True
-                    elif rk == "range":
-                        ok = a.hi <= e.lo and e.hi <= s.lo
-                        if not ok and a.hi <= e.lo:
-                            # end <= length of the receiver by a dominating comparison (`if end <= data.len() { &data[a..end] }`)
-                            rt = iv.root(t["args"][0])
-                            pl = flow.op_place(t["args"][1])
-                            d = du.single_def(pl[0]) if pl and pl[1] == () else None
-                            if rt and d and d[0] == "assign" and d[4]["k"] == "agg" and d[4]["ops"]:
-                                ok = iv.rel_holds(st, "le", iv.sym(d[4]["ops"][-1]), ("l",) + rt)
-                                if ok:
-                                    wit_rel = True
-                    elif rk == "to":
-                        ok = e.hi <= s.lo
-                        if not ok:
-                            # end symbol <= length symbol of the receiver
-                            rt = iv.root(t["args"][0])
-                            pl = flow.op_place(t["args"][1])
-                            d = du.single_def(pl[0]) if pl and pl[1] == () else None
-                            if rt and d and d[0] == "assign" and d[4]["k"] == "agg" and d[4]["ops"]:
-                                ok = iv.rel_holds(st, "le", iv.sym(d[4]["ops"][-1]), ("l",) + rt)
-                    elif rk == "from":
-                        ok = a.hi <= s.lo
-                    wit = "range %s %s..%s on length %s" % (rk, a, e, s)
-                    if ok and "str" in recv_ty and rk != "full":
-                        wit += " (str: index at a char boundary is part of the allow row / C10)"
-                else:
-                    ity = type_of_operand(b, t["args"][1]) if len(t["args"]) > 1 else ""
-                    if ity.strip() == "usize":
-                        i_iv = iv.iv_operand(st, t["args"][1])
-                        ok = i_iv.hi < s.lo
-                        wit = "index %s on length %s" % (i_iv, s)
-                    else:
-                        wit = "indexing %s by %s is not understood" % (recv_ty, ity)
-            elif kind == "copy":
-                d, s = iv.len_operand(st, t["args"][0]), iv.len_operand(st, t["args"][1])
-                ok = d.exact() is not None and d.exact() == s.exact()
-                wit = "copy_from_slice dst %s src %s" % (d, s)
-            elif kind == "unwrap":
-                # infallible conversions: try_into of an exact-length slice into [T; N]
-                pl = flow.op_place(t["args"][0])
-                d = du.single_def(pl[0]) if pl and pl[1] == () else None
-                if d and d[0] == "call" and names.call_is(d[4], "TryInto::try_into", "TryFrom::try_from"):
-                    n = None
-                    m = re.search(r"Result<\[[^;\]]*; (\d+)\]", b.local_ty(pl[0]))
-                    if m:
-                        n = int(m.group(1))
-                    st2 = iv.at(d[1], "t")
-                    s = iv.len_operand(st2, d[4]["args"][0]) if st2 is not None else Iv(0, INF)
-                    ok = n is not None and s.exact() == n
-                    wit = "try_into::<[_; %s]> of a slice of length %s" % (n, s)
-                else:
-                    wit = "unwrap/expect of %s" % (short(core.callee_of(d[4])) if d and d[0] == "call" else "a non-call value")
-            elif kind == "alloc":
-                arg = t["args"][-1] if names.call_is(t, "alloc::vec::from_elem") else (t["args"][-1] if t["args"] else None)
-                if names.call_is(t, "Vec::resize", "Vec::resize_with"):
-                    arg = t["args"][1]
-                n = iv.iv_operand(st, arg) if arg else Iv(0, INF)
-                held = is_len_derived(b, du, arg) if arg else False
-                ok = n.hi <= ALLOC_CAP or held
-                wit = "allocation size %s%s (cap %d)" % (n, " = length of held data" if held else "", ALLOC_CAP)
-                if not ok:
-                    og = flow.Origins(p)
-                    at = flow.atoms_summary(og.of_operand(b, arg)) if arg else []
-                    wit += "; size derives from %s — a short input declaring a huge length makes the decoder reserve that much" % at
-            elif kind == "vecop" and names.call_is(t, "slice::chunks", "slice::chunks_exact", "slice::windows", "Iterator::step_by") and len(t["args"]) == 2:
-                # these panic only for a size of zero
-                n_ = iv.iv_operand(st, t["args"][1])
-                ok = n_.lo >= 1
-                wit = "chunk / window / step size %s (must be non-zero)" % (n_,)
-            elif kind in ("panic", "garray", "vecop"):
-                wit = "unconditional partial operation"
-            if not ok and generic_table and (kind.startswith("assert") or kind == "index"):
-                # lookups in the generated table: discharged by C10(b) (index ranges, widths <= 32, ASCII text, sorted siblings)
-                if table_ok is None:
-                    from . import c10
-                    table_ok = c10.table_facts_hold(p)
-                if table_ok[0]:
-                    r = allowed(fn, what, api_name(b))
-                    if r is not None:
-                        ok = True
-                        wit = "discharged by C10(b) table facts + allow row: " + r["reason"]
-            if not ok:
-                r = allowed(fn, what, api_name(b))
-                if r is not None:
-                    ok = True
-                    wit = "allow row: %s (%s)" % (r["reason"], wit)
-            if ok and init_desc and not wit.startswith("allow row"):
-                wit += " [caller precondition: %s]" % init_desc
+            res_ = eval_site(b, iv, du, fn, init_desc, generic_table, bb, t, kind)
+            if res_ is None:
+                continue
+            rule, what, ok, wit = res_
+            if not ok and b.path == b.root and inline.default_policy(p, b):
+                # a crate-private helper: the site is decided where the helper is used — in the inlined view of every
+                # exported function (or closure) that reaches it, with the arguments of each call
+                fb = via_callers(b, bb, kind, generic_table)
+                if fb is not None:
+                    # one obligation per use: the site belongs to the function that uses the helper
+                    for ufn_, uwit_, uwhere_ in fb:
+                        chk.ob(rule, "%s|%s|%s" % (rule.split()[0], ufn_, what), True, uwhere_, "%s [in private helper %s, decided with this call's arguments]" % (uwit_, api_name(b)))
+                    continue
             key = "%s|%s|%s" % (rule.split()[0], fn, what)
             chk.ob(rule, key, ok, where(b, bb), wit + ("" if ok else " — reachable from a public decoder: %s" % entry_of(p, entries, b)))
             if not ok:
@@ -546,7 +619,9 @@ def run(chk):
     # a binary-search / trie walk loop is iteration, not recursion; only call-graph cycles count
     chk.ob("P4 recursion", "P4|call-graph-acyclic", not cyc2, where(cyc2[0][0], cyc2[0][1]) if cyc2 else "decoder scope",
            "call-graph cycles in decoder scope: %s" % [(api_name(b), api_name(tb)) for b, bb, tb in cyc2[:5]] if cyc2 else "no cycle among %d bodies" % len(scope))
-    chk.floor("P1", 60)
+    # vacuity guard, not a census: 67 sites on the pinned tree; rewriting indexing as slice patterns / `get` legitimately removes
+    # sites, so the floor sits well below (the entry-point and scope counts above guard the decoders themselves)
+    chk.floor("P1", 40)
     chk.floor("P2", 3)
     chk.floor("P3", 2)
     chk.floor("P4", 1)
